@@ -141,6 +141,38 @@ def obs_text(lines):
 # ------------------------------------------------------------------ running programs
 _RUN_CACHE = {}
 
+# both entry modules in ONE fresh interpreter (python -S -E -B, cwd = project root): run a.py as
+# __main__, forget every project module, run b.py as __main__.  Same observable as two calls of
+# engine.runpy.run_entry, half the process spawns.
+_RUNNER2 = r"""
+import sys, runpy, os, io, json, contextlib
+sys.path.insert(0, os.getcwd())
+res = {}
+for mod in ("a", "b"):
+    for m in ("a", "b"):
+        sys.modules.pop(m, None)
+    buf = io.StringIO()
+    exc = None
+    with contextlib.redirect_stdout(buf):
+        try:
+            runpy.run_path(mod + ".py", run_name="__main__")
+        except BaseException as e:
+            exc = type(e).__name__
+    res[mod] = [buf.getvalue()[:20000], exc]
+sys.stdout.write(json.dumps(res))
+"""
+
+
+def run_both_entries(root):
+    import subprocess
+    p = subprocess.run([sys.executable, "-S", "-E", "-B", "-c", _RUNNER2], cwd=root, capture_output=True,
+                       text=True, timeout=60, env={"PYTHONHASHSEED": "0", "PATH": "/usr/bin:/bin"})
+    try:
+        return json.loads(p.stdout)
+    except ValueError:
+        return {"a": ["", "exit%s:%s" % (p.returncode, p.stderr.strip()[-200:])],
+                "b": ["", "exit%s:%s" % (p.returncode, p.stderr.strip()[-200:])]}
+
 
 def run_files(files):
     """{'a.py': text, 'b.py': text} -> {'a': [stdout, exc], 'b': [stdout, exc], 'syntax': [...]}"""
@@ -160,9 +192,7 @@ def run_files(files):
             for name, src in files.items():
                 with open(os.path.join(root, name), "w") as f:
                     f.write(src)
-            for mod in ("a", "b"):
-                out, exc = runpy.run_entry(root, mod + ".py")
-                res[mod] = [out, exc]
+            res.update(run_both_entries(root))
         finally:
             common.rmtree(root)
     if len(_RUN_CACHE) > 4000:
@@ -349,21 +379,16 @@ def run_tlc(tier, families, guards=True, invariants=INVARIANTS, export=True, bou
 
 
 def pick_sites(beh, rnd, tier):
+    """quick: one seeded site per behaviour; thorough: one seeded site, plus (every other
+    behaviour) one more in the other module when the target occurs in both"""
     sites = sorted(beh["sites"], key=lambda s: (s["mod"], s["idx"]))
-    if tier == "thorough":
-        n = 4
-    else:
-        n = 1
-    if len(sites) <= n:
-        return sites
-    chosen = [sites[0]] if tier == "thorough" else []
-    rest = [s for s in sites if s not in chosen]
-    rnd.shuffle(rest)
-    inb = [s for s in rest if s["mod"] == "b"]
-    if tier == "thorough" and inb:
-        chosen.append(inb[0])
-        rest.remove(inb[0])
-    return chosen + rest[:n - len(chosen)]
+    first = sites[rnd.randrange(len(sites))]
+    chosen = [first]
+    if tier == "thorough" and rnd.random() < 0.5:
+        other = [s for s in sites if s["mod"] != first["mod"]]
+        if other:
+            chosen.append(other[rnd.randrange(len(other))])
+    return chosen
 
 
 def main(tier):
@@ -488,7 +513,8 @@ def main(tier):
         "statements in the defining module and one importing module; no loops, no inheritance",
         "the model theorem is thin: the spec is mostly a generator of usage shapes with a predicted output; "
         "what TLC proves is that the refactorings as specified preserve that output",
-        "sites are sampled per behaviour (quick: 1, thorough: up to 4 incl. the definition and one in module b)",
+        "sites are sampled per behaviour (one seeded site; thorough: for half of the behaviours a second one in "
+        "the other module)",
         "new names (get_f/set_f, create, MO) are fresh by construction",
     ])
     return code
